@@ -398,6 +398,13 @@ def clientNewView (c : Client) : String × Nat := (cstateName c.state, c.infligh
 theorem client_new :
     Agrees Extracted.clientNew (clientNewView { fd := 0, inst := 0, conn := Conn.new MAX_PAYLOAD_SIZE }) := by decide
 
+/-- `HttpServer::set_payload_max_size` and `HttpConnection::set_payload_max_size` store their argument and do nothing
+    else (the model's `{ s with limit := l }` / `Conn.setLimit`), and an accepted connection is `HttpConnection::new`
+    followed by the setter with the server's current limit (the model's `Conn.new s.limit`) — for EVERY value, 0 included. -/
+theorem server_set_limit : Agrees Extracted.SERVER_SET_LIMIT_IS_ASSIGNMENT 1 := by decide
+theorem conn_set_limit : Agrees Extracted.CONN_SET_LIMIT_IS_ASSIGNMENT 1 := by decide
+theorem accept_configures_limit : Agrees Extracted.ACCEPT_CONFIGURES_LIMIT 1 := by decide
+
 /-! ### the router and `Uri::get_abs_path`, translated from router.rs / request.rs (obligations of C17 and C16) -/
 
 theorem method_to_str : Agrees Extracted.methodToStr (Method.all.map fun m => (methodName m, m.toStr)) := by decide
